@@ -226,6 +226,20 @@ def pure1 (toks : List String) : Option String :=
       let (b', res) := restoreWait b (← f.toNat?) (← decHsm st) r
       let rs := match res with | .wait => "wait" | .ready => "ready" | .error => "error"
       pure s!"{rs} {encNats (sortNats b'.restoring)} {encNats (sortNats b'.started)}"
+  | ["hsmtask", kind, rs, ss, f, ex, answers] => do
+      -- answers: st/rr,st/rr,...   (rr: 1 0 -)
+      let b : Rbk := ⟨← decNats rs, ← decNats ss⟩
+      let ans ← if answers = "-" then some [] else (answers.splitOn ",").mapM (fun a => match a.splitOn "/" with
+        | [st, rr] => do
+            let r ← if rr = "-" then some none else (decBool rr).map some
+            pure ((← decHsm st), r)
+        | _ => none)
+      if kind = "ready" then
+        let (b', r) := readyPullTask (← f.toNat?) b ans
+        pure s!"{match r with | none => "waiting" | some x => encBool x} {encNats (sortNats b'.restoring)} {encNats (sortNats b'.started)}"
+      else
+        let (b', r) := hsmCheckTask (← f.toNat?) b (← decHsm ex) ans
+        pure s!"{encBool r} {encNats (sortNats b'.restoring)} {encNats (sortNats b'.started)}"
   | ["hsmrelease", headroom, avail, copies] => do
       pure (encNats (releaseFiles (← decInt headroom) (← decOptInt avail) (← decRecs decRCopy copies)))
   | ["hsmrefresh", rd, st] => do
